@@ -1,12 +1,106 @@
-/- SetOps of the line protocol (extension point). -/
+/- `HashSet` operations of the line protocol (`coll=set`). -/
 import Hb.Driver.Base
+import Hb.Model.Set
 namespace Hb.Driver
 open Hb
+
+/-- `k.kid` list in yield order. -/
+def fmtKids (l : List Elem) : String :=
+  String.intercalate "," (l.map fun e => s!"{e.k}.{e.kid}")
+
+/-- Elements of a result set sorted by `(k, kid)`. -/
+def sortedElems (t : Raw) : List Elem :=
+  let l := t.slots.toList.filterMap id
+  (l.toArray.qsort (fun a b => a.k < b.k || (a.k == b.k && a.kid < b.kid))).toList
+
+def fmtHint (h : Nat × Nat) : String := s!"sh={h.1}..{h.2}"
 
 /-- Execute one op; `(out, fatal, new value for the other collection)`. -/
 def execSetOp (st : DState) (env : Env) (name : String) (args : List String) (other : Raw) (w : World) :
     StepOut × Bool × Option Raw :=
-  let _ := (st, env, args, other)
-  ({ ret := s!"bad-op {name}", w := w }, true, none)
+  let cfg := st.cfg
+  let ids := st.ids
+  let no (x : StepOut × Bool) : StepOut × Bool × Option Raw := (x.1, x.2, none)
+  let elems := fun (l : List Elem) => String.intercalate "," (l.map (fmtElem ids))
+  let lazy := fun (h : Nat × Nat) (r : Res (List Elem × World)) =>
+    no <| resOut r (fun l => s!"{fmtHint h} y={fmtKids l}") w
+  -- operator forms: print the result set, then drop it quietly (only its block's release is logged)
+  let opForm := fun (r : Res (Raw × World)) =>
+    let r' : Res (Raw × World) := do
+      let (res, w1) ← r
+      let w2 ← Set.dropResultQuiet cfg res w1
+      pure (res, w2)
+    no <| resOut r' (fun res => s!"m={res.mask} g={res.gl} y={fmtKids (sortedElems res)}") w
+  match name, args with
+  | "insert", [k, kid] => no <| resOut (Set.insert cfg env (nat! k) (nat! kid) w) toString w
+  | "insert", [k, kid, _, _] => no <| resOut (Set.insert cfg env (nat! k) (nat! kid) w) toString w
+  | "contains", [k] => no <| resOut (Set.contains cfg env (nat! k) w) toString w
+  | "get", [k] => no <| resOut (Set.get cfg env (nat! k) w) (fmtOptElem ids) w
+  | "remove", [k] => no <| resOut (Set.remove cfg env (nat! k) w) toString w
+  | "take", [k] => no <| resOut (Set.take cfg env (nat! k) w) (fmtOptElem ids) w
+  | "replace", [k, kid] =>
+    no <| resOut (Set.replace cfg env (Set.elemOf (nat! k) (nat! kid)) w) (fmtOptElem ids) w
+  | "get_or_insert", [k, kid] =>
+    no <| resOut (Set.getOrInsert cfg env (Set.elemOf (nat! k) (nat! kid)) w) (fmtElem ids) w
+  | "get_or_insert_with", [k, kid2] =>
+    no <| resOut (Set.getOrInsertWith cfg env (nat! k) (nat! k) (nat! kid2) w) (fmtElem ids) w
+  | "get_or_insert_with_bad", [k, k2, kid2] =>
+    no <| resOut (Set.getOrInsertWith cfg env (nat! k) (nat! k2) (nat! kid2) w) (fmtElem ids) w
+  | "entry_insert", [k, kid] =>
+    no <| resOut (Set.entryInsert cfg env (Set.elemOf (nat! k) (nat! kid)) w) (fmtElem ids) w
+  | "entry_or_insert", [k, kid] =>
+    no <| resOutW (Set.entryOrInsert cfg env (Set.elemOf (nat! k) (nat! kid)) w) w
+  | "entry_remove", [k, kid] =>
+    no <| resOut (Set.entryRemove cfg env (Set.elemOf (nat! k) (nat! kid)) w) (fmtOptElem ids) w
+  | "clear", [] => no <| resOutW (clear cfg env w) w
+  | "reserve", [n] => no <| resOutW (Map.reserve cfg env (nat! n) w) w
+  | "try_reserve", [n] => no <| resOut (Map.tryReserve cfg env (nat! n) w) fmtTre w
+  | "shrink_to", [m] => no <| resOutW (shrinkTo cfg env (nat! m) w) w
+  | "shrink_to_fit", [] => no <| resOutW (shrinkTo cfg env 0 w) w
+  | "retain", [] => no <| resOutW (Set.retain cfg env w) w
+  | "extract_if", [k] => no <| resOut (Set.extractIf cfg env (nat! k) w) elems w
+  | "drain", [k, fg] => no <| resOut (Set.drain cfg env (nat! k) (fg == "1") w) elems w
+  | "into_iter", [k] => no <| resOut (Set.intoIter cfg env (nat! k) w) elems w
+  | "iter", p :: _ =>
+    match Map.iterObserve cfg w.t (nat! p) with
+    | .error f => ({ ret := s!"FAULT({f})", w := w }, true, none)
+    | .ok (pre, folded, rest, hints) =>
+      ({ ret := s!"pre={fmtNats pre} fold={fmtNats folded} rest={fmtNats rest} sh={fmtNats hints}", w := w }, false, none)
+  | "with_capacity", [n] =>
+    let r : Res World := do
+      let old := w.t
+      let w1 ← dropInnerTable cfg env old { w with t := Raw.new cfg.W }
+      withCapacity cfg env (nat! n) w1
+    no <| resOutW r w
+  | "clone_to_other", [] =>
+    let r : Res (Raw × World) := do
+      let w1 ← dropInnerTable cfg env other w
+      Set.cloneTable cfg env w1
+    match r with
+    | .ok (nt, w') => ({ ret := "()", w := w' }, false, some nt)
+    | .panic c w' => ({ ret := s!"panic:{c}", w := w' }, false, some (Raw.new cfg.W))
+    | .abort => ({ ret := "abort", w := w }, true, none)
+    | .fault f => ({ ret := s!"FAULT({f})", w := w }, true, none)
+  | "clone_from", [] => no <| resOutW (Set.cloneFrom cfg env other w) w
+  | "nop", [] => no ({ ret := "()", w := w }, false)
+  -- lazy set algebra: other = right operand
+  | "union", [] => lazy (Set.unionHint w.t other) (Set.union cfg env other w)
+  | "intersection", [] => lazy (Set.intersectionHint w.t other) (Set.intersection cfg env other w)
+  | "difference", [] => lazy (Set.differenceHint w.t other) (Set.difference cfg env other w)
+  | "symmetric_difference", [] =>
+    lazy (Set.symmetricDifferenceHint w.t other) (Set.symmetricDifference cfg env other w)
+  | "is_subset", [] => no <| resOut (Set.isSubset cfg env other w) toString w
+  | "is_superset", [] => no <| resOut (Set.isSuperset cfg env other w) toString w
+  | "is_disjoint", [] => no <| resOut (Set.isDisjoint cfg env other w) toString w
+  | "eq", [] => no <| resOut (Set.setEq cfg env other w) toString w
+  | "bitor", [] => opForm (Set.bitor cfg env other w)
+  | "bitand", [] => opForm (Set.bitand cfg env other w)
+  | "bitxor", [] => opForm (Set.bitxor cfg env other w)
+  | "sub", [] => opForm (Set.sub cfg env other w)
+  | "bitor_assign", [] => no <| resOutW (Set.bitorAssign cfg env other w) w
+  | "bitand_assign", [] => no <| resOutW (Set.bitandAssign cfg env other w) w
+  | "bitxor_assign", [] => no <| resOutW (Set.bitxorAssign cfg env other w) w
+  | "sub_assign", [] => no <| resOutW (Set.subAssign cfg env other w) w
+  | _, _ => ({ ret := s!"bad-op {name}", w := w }, true, none)
 
 end Hb.Driver
